@@ -86,7 +86,8 @@ def _edits(tier, flavour="plain", cfgs=(0,), devs=False):
     # thorough: two edits under the first configuration, one edit (two preemptions) under the others
     jobs = [J("cutmc", flavour, ["--mode", "edits", "--cfg", str(c)] + ([] if (tier == "quick" or i == 0) else ["--edits", "1", "--preempt", "2"])) for i, c in enumerate(cfgs)]
     if devs:
-        jobs.append(J("cutmc", flavour, ["--mode", "edits", "--cfg", "0", "--devs", "1", "--edits", "1", "--preempt", "1" if tier == "quick" else "2"] +
+        # deviations: one edit, one preemption in both tiers (two preemptions multiply the schedules by ten: 1.5e8 executions, beyond the budget under ASan)
+        jobs.append(J("cutmc", flavour, ["--mode", "edits", "--cfg", "0", "--devs", "1", "--edits", "1", "--preempt", "1"] +
                       (["--maxbase", "8"] if (tier == "quick" and flavour == "asan") else [])))
     return jobs
 
